@@ -159,8 +159,10 @@ def judge_output(sig, what, out, unfiltered, secrets, scalars, ctx):
 
 
 def judge_identity(sig, what, out, unfiltered):
-    if not isinstance(out, dict) or set(out) != set(SECTIONS):
+    if not isinstance(out, dict) or not set(SECTIONS) <= set(out):
         raise Violation(sig + "/sections", "%s: top-level keys %r" % (what, sorted(out) if isinstance(out, dict) else out))
+    if set(out) & {"MASTER", "BIP85"}:
+        raise Violation(sig + "/secret-section-kept", "%s: filtered output still has %r" % (what, sorted(set(out) & {"MASTER", "BIP85"})))
     for sec in SECTIONS:
         u, f = unfiltered[sec], out[sec]
         want = {"account_extended_keys": {"path": u["account_extended_keys"]["path"], "pub": u["account_extended_keys"]["pub"]},
